@@ -136,6 +136,11 @@ def build_replay_bin(scratch, overlay, pkgdir, tag="replay"):
 
 REPLAY_ENV = {}
 HANG_REPLAY_S = 20
+PREPARE_ONLY = None
+
+
+class Prepared(Exception):
+    pass
 
 
 def native_replay(scratch, binpath, records, timeout=600):
@@ -217,7 +222,7 @@ class GoCheck:
         self.t0 = time.time()
         self.scratch = scratch_dir(prop)
         self.known, self.fixed = load_known(prop)
-        for old in glob.glob(os.path.join(VERIF, "replays", prop, "*.json")):
+        for old in glob.glob(os.path.join(VERIF, "replays", prop, "*.json")) if PREPARE_ONLY is None else []:
             os.remove(old)  # replays always belong to the latest run
         self.tasks = []          # task results
         self.violations = []     # (key, replay path)
@@ -243,6 +248,12 @@ class GoCheck:
 
     def run_unit(self, pkgdir, pkgname, harnesses=None, extra_overlay=None, opts=None, extra_pkgs=None,
                  expect_unreached=(), third_party=None):
+        if PREPARE_ONLY is not None:
+            # replay mode: the check's run() is used only to rebuild what the harness needs (modules, generated files)
+            if PREPARE_ONLY == pkgdir:
+                raise Prepared({"pkgdir": pkgdir, "pkgname": pkgname, "extra_overlay": extra_overlay or {}, "extra_pkgs": extra_pkgs or [],
+                                "third_party": locals().get("third_party"), "scratch": self.scratch})
+            return
         """One package worth of harnesses."""
         pk = [{"dir": pkgdir, "name": pkgname}] + (extra_pkgs or [])
         extra_overlay = dict(extra_overlay or {})
@@ -373,12 +384,15 @@ class GoCheck:
             rp = os.path.join(rdir, re.sub(r"[^A-Za-z0-9_.-]", "_", key) + ".json")
             json.dump({"property": self.prop, "engine": "gosym", "pkgdir": pkgdir, "pkgname": self._pkgname.get(pkgdir),
                        "third_party": self._third.get(pkgdir, []), "harness": t["harness"],
-                       "case": t["case"], "case_name": self.case_name(t), "label": label, "inputs": c["inputs"],
+                       "case": t["case"], "case_name": self.case_name(t), "label": label, "inputs": c["inputs"], "tier": self.tier,
                        "info": c.get("info", ""), "observed_native": lines,
                        "cmd": "cd /verif && ./check %s --replay %s" % (self.prop, rp)}, open(rp, "w"), indent=1)
             self.violations.append((key, rp))
 
     def finish(self, level_cov_extra=None, samples_out=None):
+        if PREPARE_ONLY is not None:
+            self.cleanup()
+            return 3
         wall = time.time() - self.t0
         unreached = sorted(getattr(self, "wanted", set()) - getattr(self, "reached", set()))
         if unreached:
@@ -475,6 +489,50 @@ def replay_file(prop, path, prepare=None):
             pkgs += pk2
         ov = make_overlay(sc, pkgs, extra)
         binp = build_replay_bin(sc, ov, pkgdir)
+        lab = rec["label"]
+        try:
+            outs = native_replay(sc, binp, [{"harness": rec["harness"], "case": rec["case"], "inputs": rec["inputs"]}],
+                                 timeout=HANG_REPLAY_S if lab == "terminates-within-step-budget" else 600)
+        except (subprocess.TimeoutExpired, Inconclusive):
+            if lab != "terminates-within-step-budget":
+                raise
+            outs = [["VF-HANG native run still going after %d s" % HANG_REPLAY_S]]
+        print("\n".join(outs[0]))
+        if lab == "terminates-within-step-budget":
+            bad = any(l.startswith("VF-HANG") for l in outs[0])
+        elif lab == "uncaught-panic":
+            bad = any(l.startswith("VF-PANIC") for l in outs[0])
+        else:
+            bad = ("VF-ASSERT-FAIL " + lab) in outs[0]
+        print("REPRODUCED" if bad else "NOT-REPRODUCED")
+        return 1 if bad else 0
+    finally:
+        shutil.rmtree(sc, ignore_errors=True)
+
+
+def replay_via_run(prop, mod, path):
+    """Replay an engine-found violation: the check's own run() rebuilds modules and generated harness files from the
+    current tree (stopping before any exploration), then the recorded inputs are run natively."""
+    global PREPARE_ONLY
+    rec = json.load(open(path))
+    PREPARE_ONLY = rec["pkgdir"]
+    info = None
+    try:
+        mod.run(rec.get("tier", "quick"), 0)
+    except Prepared as p:
+        info = p.args[0]
+    finally:
+        PREPARE_ONLY = None
+    if info is None:
+        print("the check did not reach package %s while preparing" % rec["pkgdir"])
+        return 3
+    sc = info["scratch"]
+    try:
+        extra = dict(info["extra_overlay"])
+        for sub, virt in rec.get("third_party", []):
+            extra.update(third_party_overlay(sub, virt))
+        ov = make_overlay(sc, [{"dir": info["pkgdir"], "name": info["pkgname"]}] + list(info["extra_pkgs"]), extra)
+        binp = build_replay_bin(sc, ov, info["pkgdir"], tag="replayone")
         lab = rec["label"]
         try:
             outs = native_replay(sc, binp, [{"harness": rec["harness"], "case": rec["case"], "inputs": rec["inputs"]}],
